@@ -300,3 +300,17 @@ Definition psm_w : url := mkUrl [104;116;116;112;58;47;47;104] 4 7 7 8 HI_Domain
 Lemma psm_witness : wf_b psm_w = true /\ psm_assert_fails psm_w = true
   /\ path_segments_session true psm_w [] = None /\ path_segments_session false psm_w [] = Some (psm_w, SOk).
 Proof. vm_compute. repeat split; reflexivity. Qed.
+
+(* finding F-C04-12 (with F-C02-8): set_path never panics on "a:/a/b", but set_path("//") leaves "a://", a record
+   outside wf_b, on which Position slicing in component order panics in both configurations *)
+Definition w_c04_12 : url := mkUrl [97; 58; 47; 97; 47; 98] 1 2 2 2 HI_None None 2 None None.
+Lemma c04_12_witness :
+  wf_b w_c04_12 = true
+  /\ exists u', set_path true w_c04_12 [47; 47] = Some u' /\ set_path false w_c04_12 [47; 47] = Some u'
+     /\ ser u' = [97; 58; 47; 47] /\ wf_b u' = false
+     /\ index_range true u' BeforeUsername AfterUsername = None
+     /\ index_range false u' BeforeUsername AfterUsername = None.
+Proof.
+  split; [vm_compute; reflexivity|]. eexists. split; [vm_compute; reflexivity|].
+  vm_compute. repeat split; reflexivity.
+Qed.
